@@ -318,6 +318,12 @@ def step (d : DState) (line : String) : IO DState := do
     return { d with sys := { d.sys with fs := fs', store := none, locked := false,
                                         worker := { files := [], pc := .dead } },
                     crashed := true }
+  | ["fsop", "touch", id] =>
+    match id.toNat? with
+    | some id =>
+      if d.sys.fs.has id then return d
+      else return { d with sys := { d.sys with fs := d.sys.fs.create id } }
+    | none => out "bad-op"; return d
   | ["fsop", "flip", id, pos, mask] =>
     match id.toNat?, pos.toNat?, mask.toNat? with
     | some id, some pos, some mask =>
@@ -393,6 +399,38 @@ def step (d : DState) (line : String) : IO DState := do
       if d.specOn then out s!"=iter {showSpecItems d.spec.entries}"
     | none => out "iter none"
     return d
+  | ["iter2"] =>
+    match d.sys.store with
+    | some s =>
+      let one := showItems (s.iter d.sys.fs)
+      out s!"iter2 {one} | {one}"
+      for _ in [0:2] do
+        for (_, ld) in s.log do
+          c07Info s d.sys.fs ld d.maxBd
+      if d.specOn then out s!"=iter2 {showSpecItems d.spec.entries} | {showSpecItems d.spec.entries}"
+    | none => out "iter2 none"
+    return d
+  | ["burst", n, t, i] =>
+    match n.toNat?, t.toNat?, i.toNat? with
+    | some n, some t, some i =>
+      if d.sys.store.isNone then out "burst none"; return d
+      let mut d := d
+      for k in [0:n] do
+        let op := Op.append [(⟨t, i + k⟩, genBytes 7 k)]
+        let (_, sys1, evs1) := d.sys.call op
+        d := noteEvs { d with sys := sys1 } evs1
+        if d.specOn then
+          match d.spec.call op with
+          | .ok r' => d := { d with spec := r', hist := d.hist.push r' }
+          | .error _ => d := { d with specOn := false }
+        let (_, sys2, evs2) := d.sys.flush none
+        d := noteEvs { d with sys := sys2, flushedN := d.hist.size - 1 } evs2
+        -- the worker keeps up in the background
+        let (sys3, evs3) := d.sys.workerIdle
+        d := noteEvs { d with sys := sys3 } evs3
+      out s!"burst ok {n}"
+      return d
+    | _, _, _ => out "bad-op"; return d
   | ["stat"] =>
     match d.sys.store with
     | some s => out s.showStat
